@@ -187,8 +187,15 @@ def pyfftw_call(array_in, array_out, direction='forward', axes=None,
         # in them -- also not if `array_in` is already a copy of the input.
         plan_arr_in = np.empty_like(array_in)
         flags = [_flag_odl_to_pyfftw(planning_effort), 'FFTW_DESTROY_INPUT']
+        if array_out is array_in:
+            # In-place transform: the output array holds the input data,
+            # so the (in-place) plan must be made on the scratch array
+            plan_arr_out = plan_arr_in
+        else:
+            plan_arr_out = array_out
     else:
         plan_arr_in = array_in
+        plan_arr_out = array_out
         flags = [_flag_odl_to_pyfftw(planning_effort)]
 
     if fftw_plan_in is None:
@@ -199,7 +206,8 @@ def pyfftw_call(array_in, array_out, direction='forward', axes=None,
                 threads = cpu_count()
 
         fftw_plan = pyfftw.FFTW(
-            plan_arr_in, array_out, direction=_flag_odl_to_pyfftw(direction),
+            plan_arr_in, plan_arr_out,
+            direction=_flag_odl_to_pyfftw(direction),
             flags=flags, planning_timelimit=planning_timelimit,
             threads=threads, axes=axes)
     else:
